@@ -865,6 +865,11 @@ def thr_scenarios(rng, quick):
     for i in range(12 if quick else 240):
         mode = i % 3
         out.append("mode=%d conns=%d startdt=%d rounds=%d maxconn=%d" % (mode, rng.range(1, 4), rng.below(2), rng.range(1, 3), rng.choice([0, 0, 2, 5])))
+    # an attempt is turned away (limit reached / the connection request callback says no); later in the same run of the listener
+    # thread there is room and the callback agrees: the next peer is admitted
+    for mode in (0, 1, 2):
+        out.append("mode=%d conns=%d startdt=%d rounds=2 maxconn=%d late=1" % (mode, 3, rng.below(2), 2))
+        out.append("mode=%d conns=%d startdt=0 rounds=2 maxconn=0 late=1 deny=%d" % (mode, 3, rng.range(1, 3)))
     return out
 
 
